@@ -19,6 +19,13 @@
 (* tables, Reset clears both (fix 4944d76; Variant "noreset" keeps them:   *)
 (* TLC then finds the shadowing scenario by itself).                       *)
 (*                                                                         *)
+(* Backward = TRUE gives BDHP (bdhp.go): a match found at i is extended to  *)
+(* the left over the pending literals (lcs with the bytes in front of the   *)
+(* source, C19.left_maximal), and - unlike DHP - the positions a match      *)
+(* covers are inserted into the short-gram table only.  In the tail loop    *)
+(* both parsers re-insert from the match SOURCE up to the end of the match  *)
+(* (the loop variable is the source position), which the model follows.     *)
+(*                                                                         *)
 (* Slot function and DRIFT comparison as in HP.tla (InputLen1 = 2,         *)
 (* InputLen2 = 3).  Checked: ParserSM envelope on every event, TableSound  *)
 (* for both tables, ResetClean, and ResetEquiv: after a Reset the model    *)
@@ -26,7 +33,8 @@
 (***************************************************************************)
 EXTENDS ParserSM, HPHash, Json
 
-CONSTANTS Alpha, Scope, MaxInp, MaxWrite, Variant, EmitOps, EmitEvery
+CONSTANTS Alpha, Scope, MaxInp, MaxWrite, Variant, EmitOps, EmitEvery,
+          Backward   \* TRUE: the backward extending variant BDHP (bdhp.go), FALSE: DHP
 
 Geoms ==
   IF Scope = "quick"
@@ -48,14 +56,15 @@ Bytes(n) == SeqsUpTo(Alpha, n)
 
 Empty == [s \in 0..7 |-> <<0, 0>>]
 
-Cfg(c) == [kind |-> "DHP", B |-> c.B, S |-> c.S, Wnd |-> c.Wnd, Blk |-> c.Blk, il |-> IL1, mm |-> 0, xm |-> 0]
+Kind == IF Backward THEN "BDHP" ELSE "DHP"
+Cfg(c) == [kind |-> Kind, B |-> c.B, S |-> c.S, Wnd |-> c.Wnd, Blk |-> c.Blk, il |-> IL1, mm |-> 0, xm |-> 0]
 
 Init ==
   /\ cf \in Geoms
   /\ data = <<>> /\ w = 0 /\ off = 0 /\ t1 = Empty /\ t2 = Empty
   /\ st = PInit(Cfg(cf))
   /\ ev = [op |-> "begin"]
-  /\ ops = <<[op |-> "begin", kind |-> "DHP", BufferSize |-> cf.B, ShrinkSize |-> cf.S, WindowSize |-> cf.Wnd,
+  /\ ops = <<[op |-> "begin", kind |-> Kind, BufferSize |-> cf.B, ShrinkSize |-> cf.S, WindowSize |-> cf.Wnd,
               BlockSize |-> cf.Blk, InputLen1 |-> IL1, HashBits1 |-> cf.hb1, InputLen2 |-> IL2, HashBits2 |-> cf.hb2]>>
 
 G1(d, i) == d[i + 1] + 256 * d[i + 2]
@@ -87,11 +96,24 @@ ClipLcpD(d, j, i, e, acc) ==
 
 MinMatch == 2     \* min(3, InputLen1)
 
+RECURSIVE LcsD(_, _, _, _, _)
+LcsD(d, j, i, back, acc) ==
+  IF acc >= back THEN acc
+  ELSE IF d[j - acc] # d[i - acc] THEN acc       \* bytes j-1-acc and i-1-acc (0-based)
+  ELSE LcsD(d, j, i, back, acc + 1)
+
+(* BDHP: number of bytes a match at i with source j moves to the left *)
+BackLen(i, j, litIndex) ==
+  IF ~Backward THEN 0
+  ELSE LET back == Min(i - litIndex, j) IN IF back > 0 THEN LcsD(data, j, i, back, 0) ELSE 0
+
 (* covered positions after a match at i of length k *)
 Cover(tt, i, li2, e1, e2) ==
-  LET r == InsBoth(tt, data, i + 1, Min(li2, e2))
-      j == Max(i + 1, Min(li2, e2))
-  IN IF j < li2 THEN <<InsOne(r[1], data, j, Min(li2, e1)), r[2]>> ELSE r
+  IF Backward
+  THEN <<InsOne(tt[1], data, i + 1, Min(li2, e1)), tt[2]>>     \* bdhp.go: h1 only
+  ELSE LET r == InsBoth(tt, data, i + 1, Min(li2, e2))
+           j == Max(i + 1, Min(li2, e2))
+       IN IF j < li2 THEN <<InsOne(r[1], data, j, Min(li2, e1)), r[2]>> ELSE r
 
 (* tail loop: positions e2 <= i < e1, h1 only *)
 RECURSIVE TailLoop(_, _, _, _, _, _)
@@ -105,9 +127,11 @@ TailLoop(tt, i, e, e1, litIndex, seqs) ==
        IN IF x # entry[2] \/ ~(0 < o /\ o <= cf.Wnd) THEN TailLoop(tb1, i + 1, e, e1, litIndex, seqs)
           ELSE LET k == ClipLcpD(data, j, i, e, 0) IN
                IF k < MinMatch THEN TailLoop(tb1, i + 1, e, e1, litIndex, seqs)
-               ELSE LET li2 == i + k
-                        tb2 == <<InsOne(tb1[1], data, i + 1, Min(li2, e1)), tb1[2]>>
-                    IN TailLoop(tb2, li2, e, e1, li2, Append(seqs, <<i - litIndex, k, o, 0>>))
+               ELSE LET m   == BackLen(i, j, litIndex)
+                        li2 == i + k
+                        \* the cover loop starts at the source position j
+                        tb2 == <<InsOne(tb1[1], data, j, Min(li2, e1)), tb1[2]>>
+                    IN TailLoop(tb2, li2, e, e1, li2, Append(seqs, <<i - m - litIndex, k + m, o, 0>>))
 
 (* main loop: positions i < e2 *)
 RECURSIVE MainLoop(_, _, _, _, _, _, _)
@@ -126,8 +150,10 @@ MainLoop(tt, i, e, e1, e2, litIndex, seqs) ==
        IN IF (~hit2 /\ ~hit1) \/ ~(0 < o /\ o <= cf.Wnd) THEN MainLoop(tb1, i + 1, e, e1, e2, litIndex, seqs)
           ELSE LET k == ClipLcpD(data, j, i, e, 0) IN
                IF k < MinMatch THEN MainLoop(tb1, i + 1, e, e1, e2, litIndex, seqs)
-               ELSE LET li2 == i + k IN
-                    MainLoop(Cover(tb1, i, li2, e1, e2), li2, e, e1, e2, li2, Append(seqs, <<i - litIndex, k, o, 0>>))
+               ELSE LET m   == BackLen(i, j, litIndex)
+                        li2 == i + k
+                    IN MainLoop(Cover(tb1, i - m, li2, e1, e2), li2, e, e1, e2, li2,
+                                Append(seqs, <<i - m - litIndex, k + m, o, 0>>))
 
 RECURSIVE LitsOf(_, _, _, _)
 LitsOf(seqs, k, pos, acc) ==
